@@ -7,6 +7,7 @@ ID = "C12"
 TITLE = "Ocean floor extraction returns the deepest valid value of every water column"
 MC = {"quick": [("MC_Depth", "MC_Depth.cfg", 8)], "thorough": [("MC_Depth", "MC_Depth_thorough.cfg", 16)]}
 TRACE = ("Trace_Depth", "Trace_Depth.cfg")
+THOROUGH_EXTRA_SEEDS = 2
 # the repository\'s own tests, recorded by harness/harvest_plugin.py, judged by the same trace specification
 ALSO = {"quick": [], "thorough": ["harness.props.hv12"]}
 REQUIRED = ["OceanFloor", "via-accessor", "via-function", "two-depth-coordinates", "dry-column", "attr-withheld",
